@@ -426,11 +426,58 @@ v("c06-cache-shifts-in-place", "C06", "C06.d", [("storage/logreader/cache.go", "
 v("c15-n-leased-is-outcome", "C15", "none", [(WRK, "\t\t\t\tif err == nil {\n\t\t\t\t\tprev := w.leased.Swap(true)\n\t\t\t\t\tif !prev {\n\t\t\t\t\t\tw.metrics.replicationLeased.Set(1)\n\t\t\t\t\t}\n\t\t\t\t} else {\n\t\t\t\t\tprev := w.leased.Swap(false)\n\t\t\t\t\tif prev {\n\t\t\t\t\t\tw.metrics.replicationLeased.Set(0)\n\t\t\t\t\t}\n\t\t\t\t}", "\t\t\t\tleased := err == nil\n\t\t\t\tif prev := w.leased.Swap(leased); prev != leased {\n\t\t\t\t\tif leased {\n\t\t\t\t\t\tw.metrics.replicationLeased.Set(1)\n\t\t\t\t\t} else {\n\t\t\t\t\t\tw.metrics.replicationLeased.Set(0)\n\t\t\t\t\t}\n\t\t\t\t}")])
 v("c15-leased-is-inverted-outcome", "C15", "C15.c", [(WRK, "\t\t\t\tif err == nil {\n\t\t\t\t\tprev := w.leased.Swap(true)\n\t\t\t\t\tif !prev {\n\t\t\t\t\t\tw.metrics.replicationLeased.Set(1)\n\t\t\t\t\t}\n\t\t\t\t} else {\n\t\t\t\t\tprev := w.leased.Swap(false)\n\t\t\t\t\tif prev {\n\t\t\t\t\t\tw.metrics.replicationLeased.Set(0)\n\t\t\t\t\t}\n\t\t\t\t}", "\t\t\t\tleased := err != nil\n\t\t\t\tif prev := w.leased.Swap(leased); prev != leased {\n\t\t\t\t\tif leased {\n\t\t\t\t\t\tw.metrics.replicationLeased.Set(1)\n\t\t\t\t\t} else {\n\t\t\t\t\t\tw.metrics.replicationLeased.Set(0)\n\t\t\t\t\t}\n\t\t\t\t}")])
 
+
+# ---------------- rules added after the round-2 changes for C07-C12 ----------------
+v("c10-flush-before-append-tag-ahead", "C10", "C10.e", [(WRK, "\t\tseq.Sequence = append(seq.Sequence, c.Command)\n\t\tseq.LeaderIndex = &c.LeaderIndex\n", "\t\tif len(seq.Sequence) > 0 && seq.SizeVT()+c.Command.SizeVT() >= desiredProposalSize {\n\t\t\tseq.LeaderIndex = &c.LeaderIndex\n\t\t\tif err := propose(); err != nil {\n\t\t\t\treturn lastApplied, err\n\t\t\t}\n\t\t}\n\t\tseq.Sequence = append(seq.Sequence, c.Command)\n\t\tseq.LeaderIndex = &c.LeaderIndex\n")], "agent changes C10-r2m1 / C11-r2m1")
+v("c11-flush-before-append-tag-ahead", "C11", "C11.f", [(WRK, "\t\tseq.Sequence = append(seq.Sequence, c.Command)\n\t\tseq.LeaderIndex = &c.LeaderIndex\n", "\t\tif len(seq.Sequence) > 0 && seq.SizeVT()+c.Command.SizeVT() >= desiredProposalSize {\n\t\t\tseq.LeaderIndex = &c.LeaderIndex\n\t\t\tif err := propose(); err != nil {\n\t\t\t\treturn lastApplied, err\n\t\t\t}\n\t\t}\n\t\tseq.Sequence = append(seq.Sequence, c.Command)\n\t\tseq.LeaderIndex = &c.LeaderIndex\n")])
+v("c11-restart-without-listener", "C11", "C11.b", [(MGR, "\t\t\tfsm.New(name, m.cfg.Table.DataDir, m.cfg.Table.FS, m.blockCache, m.tableCache, fsm.SnapshotRecoveryType(m.cfg.Table.RecoveryType), func(applied uint64) {\n\t\t\t\tif m.cfg.Table.AppliedIndexListener != nil {\n\t\t\t\t\tm.cfg.Table.AppliedIndexListener(name, applied)\n\t\t\t\t}\n\t\t\t}),", "\t\t\tfsm.New(name, m.cfg.Table.DataDir, m.cfg.Table.FS, m.blockCache, m.tableCache, fsm.SnapshotRecoveryType(m.cfg.Table.RecoveryType), nil),")], "agent change C11-r2m3")
+SNAPS = "storage/table/fsm/snapshot_snapshot.go"
+v("c08-sst-single-read", "C08", "C08.e", [(SNAPS, "\t\t\tif _, err = io.CopyBuffer(f, io.LimitReader(r, int64(size)), buff); err != nil {\n\t\t\t\treturn err\n\t\t\t}", "\t\t\tif _, err = r.Read(buff[:size]); err != nil {\n\t\t\t\treturn err\n\t\t\t}\n\t\t\tif _, err = f.Write(buff[:size]); err != nil {\n\t\t\t\treturn err\n\t\t\t}")], "agent change C08-r2m3")
+v("c12-compare-buffer-not-reset", "C12", "C12.d3", [(TXN, "\t\t\t\tkeyBuf.Reset()\n\t\t\t\treturn true, nil", "\t\t\t\treturn true, nil")], "agent change C12-r2m2")
+v("c01-compare-buffer-not-reset", "C01", "C01.j4", [(TXN, "\t\t\t\tkeyBuf.Reset()\n\t\t\t\treturn true, nil", "\t\t\t\treturn true, nil")])
+v("c12-dump-from-min-key", "C12", "C12.e", [(QRY, "\titer := reader.NewIter(nil)\n\tdefer iter.Close()\n\n\tidx, err := readLocalIndex(reader, sysLocalIndex)", "\titer := reader.NewIter(&pebble.IterOptions{LowerBound: mustEncodeKey(key.Key{KeyType: key.TypeUser, Key: key.LatestMinKey})})\n\tdefer iter.Close()\n\n\tidx, err := readLocalIndex(reader, sysLocalIndex)")], "agent change C12-r2m3 (simplified)")
+v("c09-txn-range-reads-db", "C09", "C09.g", [(TXN, "\t\t\tresponse, err := lookup(ctx.batch, o.RequestRange)", "\t\t\tresponse, err := lookup(ctx.db, o.RequestRange)")], "agent change C09-r2m2")
+
 # ---------------- behaviour-preserving refactorings written by sub-agents (neutral/<set>/<n>/patch.diff) ----------------
 def vp(id, prop, expect, patches, note=""):
     V.append({"id": id, "prop": prop, "expect": expect, "note": note, "edits": [], "patch": patches})
 
 NEUTRAL = {
+    'neutral/setI/n1': ['C19'],
+    'neutral/setI/n10': ['C14', 'C16', 'C17'],
+    'neutral/setI/n11': ['C11', 'C17', 'C18'],
+    'neutral/setI/n12': ['C13', 'C19'],
+    'neutral/setI/n2': ['C06', 'C13', 'C14', 'C19'],
+    'neutral/setI/n3': ['C16', 'C17', 'C18'],
+    'neutral/setI/n4': ['C18'],
+    'neutral/setI/n5': ['C13', 'C15'],
+    'neutral/setI/n6': ['C16', 'C18'],
+    'neutral/setI/n7': ['C18'],
+    'neutral/setI/n8': ['C06', 'C11'],
+    'neutral/setI/n9': ['C16', 'C18'],
+    'neutral/setG/n1': ['C01', 'C02', 'C03', 'C04', 'C05', 'C07', 'C08', 'C09', 'C10', 'C11', 'C12', 'C14'],
+    'neutral/setG/n10': ['C04', 'C08'],
+    'neutral/setG/n11': ['C05', 'C10', 'C11', 'C15', 'C18'],
+    'neutral/setG/n12': ['C02', 'C05', 'C06', 'C07', 'C09', 'C10', 'C14', 'C19'],
+    'neutral/setG/n2': ['C01', 'C02', 'C03', 'C04', 'C07', 'C08', 'C10', 'C11', 'C12', 'C14'],
+    'neutral/setG/n3': ['C01', 'C02', 'C03', 'C04', 'C07', 'C08', 'C10', 'C11', 'C12', 'C14'],
+    'neutral/setG/n4': ['C08', 'C09'],
+    'neutral/setG/n5': ['C11'],
+    'neutral/setG/n7': ['C05', 'C07', 'C14', 'C15'],
+    'neutral/setG/n8': ['C02', 'C09', 'C10', 'C14', 'C16'],
+    'neutral/setG/n9': ['C17'],
+    'neutral/setH/n1': ['C01', 'C03', 'C04', 'C05', 'C10', 'C12'],
+    'neutral/setH/n10': ['C03', 'C04', 'C08'],
+    'neutral/setH/n11': ['C05', 'C15', 'C18'],
+    'neutral/setH/n12': ['C11'],
+    'neutral/setH/n2': ['C08', 'C09'],
+    'neutral/setH/n3': ['C01', 'C03', 'C04', 'C07', 'C09', 'C10', 'C12', 'C18'],
+    'neutral/setH/n4': ['C05', 'C06'],
+    'neutral/setH/n5': ['C01', 'C02', 'C03', 'C04', 'C07', 'C08', 'C10', 'C11', 'C12', 'C14'],
+    'neutral/setH/n6': ['C01', 'C12'],
+    'neutral/setH/n7': ['C04', 'C08'],
+    'neutral/setH/n8': ['C17'],
+    'neutral/setH/n9': ['C05', 'C07', 'C14', 'C15'],
     'neutral/setE/n1': ['C01', 'C02', 'C03', 'C04', 'C07', 'C08', 'C10', 'C11', 'C12', 'C14', 'C16'],
     'neutral/setE/n10': ['C12'],
     'neutral/setE/n11': ['C04', 'C08'],
@@ -508,7 +555,49 @@ for d, props in NEUTRAL.items():
     for p in props:
         vp("%s-%s-%s" % (p.lower(), d.split('/')[1].lower(), d.split('/')[2]), p, "none", [d + "/patch.diff"], "neutral refactoring " + d)
 
+# ---- round 4: rules written for the C13-C19 second-round seeded changes (variants are not the agents' patches)
+ENG = "storage/engine.go"
+v("c14-seq-blind-retry", "C14", "C14.b", [(MGR, "\t_, err = m.store.Set(seq.Key, strconv.FormatUint(next, 10), seq.Ver)\n\treturn next, err", "\t_, err = m.store.Set(seq.Key, strconv.FormatUint(next, 10), seq.Ver)\n\tif err != nil {\n\t\t_, err = m.store.Set(seq.Key, strconv.FormatUint(next, 10), 0)\n\t}\n\treturn next, err")], "a lost compare-and-set of the id sequence answered by a second, unconditional write")
+v("c14-n-seq-value-local", "C14", "none", [(MGR, "\t_, err = m.store.Set(seq.Key, strconv.FormatUint(next, 10), seq.Ver)\n\treturn next, err", "\tval := strconv.FormatUint(next, 10)\n\t_, err = m.store.Set(seq.Key, val, seq.Ver)\n\treturn next, err")])
+v("c14-unmarshal-merges", "C14", "C14.h", [(MAP, "\ts.m = make(map[string]Pair)\n\treturn json.Unmarshal(bytes, &s.m)", "\treturn json.Unmarshal(bytes, &s.m)")], "shared with C13.e")
+v("c15-unmarshal-merges", "C15", "C15.e", [(MAP, "\ts.m = make(map[string]Pair)\n\treturn json.Unmarshal(bytes, &s.m)", "\treturn json.Unmarshal(bytes, &s.m)")], "shared with C13.e")
+v("c15-unmarshal-keeps-when-nonempty", "C15", "C15.e", [(MAP, "\ts.m = make(map[string]Pair)\n\treturn json.Unmarshal(bytes, &s.m)", "\tif s.m == nil {\n\t\ts.m = make(map[string]Pair)\n\t}\n\treturn json.Unmarshal(bytes, &s.m)")])
+v("c14-reconcile-lists-swapped", "C14", "C14.i", [(RPL, "\t\tif !slices.ContainsFunc(leaderTables, func(lt *regattapb.Table) bool {\n\t\t\treturn ft.Name == lt.Name\n\t\t}) {\n\t\t\ttoDelete = append(toDelete, ft.Name)", "\t\tif slices.ContainsFunc(leaderTables, func(lt *regattapb.Table) bool {\n\t\t\treturn ft.Name == lt.Name\n\t\t}) {\n\t\t\ttoDelete = append(toDelete, ft.Name)")], "shared with C05.g")
+v("c14-reconcile-returns-on-empty-leader", "C14", "C14.i", [(RPL, "\tvar toCreate, toDelete []string\n", "\tif len(leaderTables) == 0 {\n\t\treturn nil\n\t}\n\tvar toCreate, toDelete []string\n")], "shared with C05.g")
+v("c16-readonly-ignores-failure", "C16", "C16.g", [(EXT, "\tfor _, op := range req.Failure {\n\t\tif _, ok := op.Request.(*RequestOp_RequestRange); !ok {\n\t\t\treturn false\n\t\t}\n\t}\n", "")], "shared with C02.f")
+v("c16-readonly-put-counts", "C16", "C16.g", [(EXT, "\tfor _, op := range req.Success {\n\t\tif _, ok := op.Request.(*RequestOp_RequestRange); !ok {\n\t\t\treturn false\n\t\t}", "\tfor _, op := range req.Success {\n\t\tif _, ok := op.Request.(*RequestOp_RequestRange); !ok {\n\t\t\tcontinue\n\t\t}")], "shared with C02.f")
+v("c17-https-only-secure", "C17", "C17.g", [(COM, "\tsecure = u.Scheme == \"https\" || u.Scheme == \"unixs\"", "\tsecure = u.Scheme == \"https\"")])
+v("c17-plain-unix-secure", "C17", "C17.g", [(COM, "\tsecure = u.Scheme == \"https\" || u.Scheme == \"unixs\"", "\tsecure = u.Scheme == \"https\" || network == \"unix\"")], "secure decided by the network: unix:// becomes 'secure', evaluated as undecidable or wrong")
+v("c17-n-secure-switch", "C17", "none", [(COM, "\tsecure = u.Scheme == \"https\" || u.Scheme == \"unixs\"", "\tswitch u.Scheme {\n\tcase \"https\", \"unixs\":\n\t\tsecure = true\n\t}")])
+v("c17-n-secure-not-plain", "C17", "none", [(COM, "\tsecure = u.Scheme == \"https\" || u.Scheme == \"unixs\"", "\tsecure = !(u.Scheme != \"https\" && u.Scheme != \"unixs\")")])
+v("c19-delete-header-literal", "C19", "C19.b", [(ENG, "\tdel.Header = e.getHeader(del.Header, t.ClusterID)", "\tdel.Header = &regattapb.ResponseHeader{ShardId: t.ClusterID, ReplicaId: e.cfg.NodeID}")], "a response whose header is not read from the view")
+v("c19-notify-replaces-view", "C19", "C19.c", [(CLU, "func (c *Cluster) Notify() {\n\tc.shardView.update(", "func (c *Cluster) Notify() {\n\tc.shardView = newView()\n\tc.shardView.update(")], "the raft notification starts a new view each time: what gossip merged is dropped")
+v("c18-snappy-pool-shares-writer", "C18", "C18.e", [(SN, "\tc.poolCompressor.New = func() interface{} {\n\t\tw := gs.NewBufferedWriter(io.Discard)\n\t\treturn &writer{Writer: w, pool: &c.poolCompressor}", "\tshared := gs.NewBufferedWriter(io.Discard)\n\tc.poolCompressor.New = func() interface{} {\n\t\tw := shared\n\t\treturn &writer{Writer: w, pool: &c.poolCompressor}")])
+v("c18-restore-reader-carried-over", "C18", "C18.f", [(BKP, "\thash := md5.New()\n\tfor _, table := range manifest.Tables {\n", "\thash := md5.New()\n\tvar rd *bufio.Reader\n\tfor _, table := range manifest.Tables {\n"), (BKP, "\t\t_, err = io.Copy(&Writer{Sender: stream}, bufio.NewReaderSize(tf, defaultSnapshotChunkSize))", "\t\tif rd == nil {\n\t\t\trd = bufio.NewReaderSize(tf, defaultSnapshotChunkSize)\n\t\t}\n\t\t_, err = io.Copy(&Writer{Sender: stream}, rd)")])
+v("c18-n-restore-reader-local", "C18", "none", [(BKP, "\t\t_, err = io.Copy(&Writer{Sender: stream}, bufio.NewReaderSize(tf, defaultSnapshotChunkSize))", "\t\trd := bufio.NewReaderSize(tf, defaultSnapshotChunkSize)\n\t\t_, err = io.Copy(&Writer{Sender: stream}, rd)")])
+v("c18-api-server-recv-pool", "C18", "C18.f", [(COM, "\t\"google.golang.org/grpc/codes\"\n", "\t\"google.golang.org/grpc/codes\"\n\t\"google.golang.org/grpc/experimental\"\n"), (COM, "\t\tgrpc.KeepaliveParams(keepalive.ServerParameters{MaxConnectionAge: 60 * time.Second}),\n\t\tgrpc.ChainStreamInterceptor(\n\t\t\tauth.StreamServerInterceptor(defaultAuthFunc),", "\t\tgrpc.KeepaliveParams(keepalive.ServerParameters{MaxConnectionAge: 60 * time.Second}),\n\t\texperimental.RecvBufferPool(grpc.NewSharedBufferPool()),\n\t\tgrpc.ChainStreamInterceptor(\n\t\t\tauth.StreamServerInterceptor(defaultAuthFunc),")])
+v("c18-lenbuf-4-in-open", "C18", "C18.a", [(SNP, "\t\tlenBuff: make([]byte, 8),", "\t\tlenBuff: make([]byte, 4),")])
+
+# the confirmed seeded changes of the sub-agents (section 11.4 of DESIGN.md) as overlays: the same
+# patches tools/run_seeded.sh applies to /repo, here without touching it
+import glob, os
+for d in sorted(glob.glob(os.path.join(os.path.dirname(os.path.abspath(__file__)), "..", "seeded", "*"))):
+    mf = os.path.join(d, "meta.json")
+    if not os.path.exists(mf):
+        continue
+    m = json.load(open(mf))
+    if not m.get("detected"):
+        continue
+    sid = os.path.basename(d)
+    prop = sid.split("-")[0]
+    obs = sorted(set(x.split()[0] for x in m.get("detected_by_check", [])))
+    own = [o for o in obs if o.startswith(prop + ".")]
+    if not own:
+        continue
+    vp("seeded-" + sid.lower(), prop, own[0], ["seeded/" + sid + "/patch.diff"], "sub-agent change " + sid + ": " + (m.get("title") or ""))
+
 # parent of fix F9 (reverse of /repo commit 9c3d1c6)
-vp("c14-f9-parent", "C14", "C14.g", ["selftest/patches/f9-parent.diff"], "parent of fix F9: table names containing '/'")
+vp("c14-f9-parent", "C14", "C14.g", ["selftest/patches/f10-parent.diff", "selftest/patches/f9-parent.diff"], "parent of fix F9: table names containing '/' (on top of the parent of F10)")
+vp("c14-f10-parent", "C14", "C14.g", ["selftest/patches/f10-parent.diff"], "parent of fix F10: DeleteTable with a name containing '/'")
 
 json.dump(V, sys.stdout, indent=1)
